@@ -14,7 +14,10 @@ ap.add_argument("--demo"); ap.add_argument("--skip-baseline", action="store_true
 a = ap.parse_args()
 seed = os.path.abspath(a.seed)
 scratch = "/dev/shm/seedeval-%s-%d" % (a.prop, os.getpid())
-env = dict(os.environ, GOFLAGS="-mod=mod", GOPROXY="off", GOSUMDB="off", GOTOOLCHAIN="local", CGO_ENABLED="1")
+# everything the builds, the baseline tests and the demonstration leave in the temp directory goes away with the evaluation
+tmpdir = scratch + "-tmp"
+os.makedirs(tmpdir, exist_ok=True)
+env = dict(os.environ, GOFLAGS="-mod=mod", GOPROXY="off", GOSUMDB="off", GOTOOLCHAIN="local", CGO_ENABLED="1", TMPDIR=tmpdir)
 def sh(cmd, cwd=None, timeout=3600):
     r = subprocess.run(cmd, shell=True, cwd=cwd, env=env, stdout=subprocess.PIPE, stderr=subprocess.STDOUT, timeout=timeout)
     return r.returncode, r.stdout.decode(errors="replace")
@@ -72,4 +75,5 @@ try:
 finally:
     subprocess.call(["git", "-C", "/repo", "worktree", "remove", "--force", scratch])
     shutil.rmtree(scratch, ignore_errors=True)
+    shutil.rmtree(tmpdir, ignore_errors=True)
 print(json.dumps(res, indent=1))
